@@ -25,6 +25,7 @@ structure V3 where
 
 /-- `f64::min` (NaN-ignoring) -/
 def fmin (a b : Float) : Float := if a.isNaN then b else if b.isNaN then a else if b < a then b else a
+def fmax (a b : Float) : Float := if a.isNaN then b else if b.isNaN then a else if b > a then b else a
 
 /-- `x.clamp(-1.0, 1.0)` -/
 def fclamp1 (x : Float) : Float := if x < -1.0 then -1.0 else if x > 1.0 then 1.0 else x
@@ -143,6 +144,36 @@ def polyArea (vs : Poly) : Float :=
       go m (i + 1) (acc + (vj.x - vi.x) * (vj.y + vi.y))
   go n 0 0.0
 
+/-- the same loop on an array (constant-time indexing, as the `Vec` of the Rust code): what the compiled driver runs, by the
+proved equation `polyArea_eq_fast` below (`@[csimp]`: the compiler may only use it because it is a theorem) -/
+def polyAreaFast (vs : Poly) : Float :=
+  let arr := vs.toArray
+  let n := arr.size
+  let rec go : Nat → Nat → Float → Float
+    | 0, _, acc => acc
+    | m + 1, i, acc =>
+      let vi := arr.getD i default
+      let vj := arr.getD ((i + 1) % n) default
+      go m (i + 1) (acc + (vj.x - vi.x) * (vj.y + vi.y))
+  go n 0 0.0
+
+theorem toArray_getD (vs : Poly) (i : Nat) (d : V2) : vs.toArray.getD i d = vs.getD i d := by
+  simp [Array.getD, List.getD_eq_getElem?_getD]
+  split <;> simp_all
+
+@[csimp] theorem polyArea_eq_fast : @polyArea = @polyAreaFast := by
+  funext vs
+  unfold polyArea polyAreaFast
+  simp only [List.size_toArray]
+  suffices h : ∀ m i acc, polyArea.go vs vs.length m i acc = polyAreaFast.go vs.toArray vs.length m i acc from h _ _ _
+  intro m
+  induction m with
+  | zero => intro i acc; rfl
+  | succ m ih =>
+    intro i acc
+    unfold polyArea.go polyAreaFast.go
+    rw [ih, toArray_getD, toArray_getD]
+
 def windingCorrect (vs : Poly) : Bool := polyArea vs ≥ 0.0
 
 /-- `PentagonShape::new` / `new_triangle` / `from_vertices` -/
@@ -178,6 +209,26 @@ def polyContains (vs : Poly) (p : V2) : Outcome Float :=
           go m (i + 1) (fmin dMax (cross / pLen))
         else go m (i + 1) dMax
     .ok (go n 0 1.0)
+
+/-- `distance_outside` (fix for defect F16): 0 when the point is on the inner side of every edge, otherwise the largest
+perpendicular distance to the line of an edge it is on the wrong side of (`f64::max`) -/
+def polyDistanceOutside (vs : Poly) (p : V2) : Float :=
+  let n := vs.length
+  let rec go : Nat → Nat → Float → Float
+    | 0, _, dMax => dMax
+    | m + 1, i, dMax =>
+      let v1 := vs.getD i default
+      let v2 := vs.getD ((i + 1) % n) default
+      let dx := v1.x - v2.x
+      let dy := v1.y - v2.y
+      let px := p.x - v1.x
+      let py := p.y - v1.y
+      let cross := dx * py - dy * px
+      if cross < 0.0 then
+        let eLen := (dx * dx + dy * dy).sqrt
+        go m (i + 1) (fmax dMax (-cross / eLen))
+      else go m (i + 1) dMax
+  go n 0 0.0
 
 def polySplitEdges (vs : Poly) (segments : Nat) : Poly :=
   if segments ≤ 1 then vs
